@@ -172,6 +172,8 @@ class _Decider:
       return None
     if _is_nothing(e):
       return "nothing"
+    if isinstance(stmt, ast.stmt) and self._fallback(stmt):
+      return "merge"
     if _is_trivial(e, fn):
       return "trivial"
     e = _strip(e)
@@ -217,10 +219,11 @@ class _Decider:
     key = _memo_key(e)
     if key is not None and isinstance(e.ctx, ast.Load):
       stores = _memo_stores(mod, fn, key)
-      if not stores:
-        return self._other(e)
       if ("memo",) + key in seen:
         return "nothing"
+      if not stores:
+        k = self._handed_down(key, depth, seen)
+        return k if k is not None else self._other(e)
       kinds = []
       for sc, st, val in stores:
         if isinstance(val, ast.AugAssign):
@@ -246,22 +249,72 @@ class _Decider:
       return "trivial"
     return "nothing"
 
+  def _is_merge_call(self, n):
+    return isinstance(n, ast.Call) and (
+        (dotted(n.func) or "").split(".")[-1] == "MROMerge"
+        or _resolve_callee(self.mod, self.fn, n, self.merging) is not None)
+
   def _other(self, e):
-    """An expression that is not a merge value: a bypass when it is built from
-    a linearisation or from the bases, unknown otherwise."""
+    """An expression that is not a merge value.  Built only from displays,
+    `+`, tuple()/list(), names, attributes, subscripts and slices (or reading a
+    `.mro`): a sequence assembled without the merge - a bypass; a merge result
+    concatenated with further rows: a bypass; anything that involves a call
+    the rule does not know: unknown."""
     for n in ast.walk(e):
       if isinstance(n, ast.Attribute) and n.attr == "mro":
         return ("bypass", f"`{src(n)}` (a linearisation) is used outside the merge")
-      if isinstance(n, ast.Call):
-        if (dotted(n.func) or "").split(".")[-1] == "MROMerge" or \
-            _resolve_callee(self.mod, self.fn, n, self.merging) is not None:
-          return ("bypass",
-                  f"the merge result `{src(n)[:60]}` is combined with other rows "
-                  "after the merge")
-      if isinstance(n, ast.Attribute) and n.attr == "bases" or \
-          isinstance(n, ast.Name) and n.id == "bases":
-        return ("bypass", f"`{src(n)}` (the direct bases) is returned unmerged")
-    return None
+    for n in ast.walk(e):
+      if isinstance(n, ast.BinOp) and isinstance(n.op, ast.Add) and any(
+          self._is_merge_call(c) for c in ast.walk(n)) and not any(
+              isinstance(c, ast.Call) and not self._is_merge_call(c)
+              and not (isinstance(c.func, ast.Name) and c.func.id in ("tuple", "list"))
+              for c in ast.walk(n)):
+        return ("bypass", f"the merge result is concatenated with further rows "
+                          f"after the merge in `{src(n)[:80]}`")
+    for n in ast.walk(e):
+      if isinstance(n, ast.Call) and not (
+          isinstance(n.func, ast.Name) and n.func.id in ("tuple", "list")):
+        return None
+      if isinstance(n, (ast.Lambda, ast.Await, ast.Yield, ast.YieldFrom,
+                        ast.NamedExpr, ast.Compare, ast.BoolOp)):
+        return None
+    if isinstance(e, ast.Constant):
+      return None
+    return ("bypass", f"`{src(e)[:80]}` is a sequence assembled without the merge")
+
+  def _fallback(self, stmt):
+    """Is stmt inside `except ..MROError..` of a try whose body contains a
+    merge call?  (the linearisation substituted after the merge FAILED)"""
+    child, cur = stmt, self.mod.parent.get(stmt)
+    while cur is not None and cur is not self.fn:
+      if isinstance(cur, ast.ExceptHandler):
+        t = self.mod.parent.get(cur)
+        if isinstance(t, ast.Try) and "MROError" in C._handler_types(cur) and any(
+            self._is_merge_call(c) for st in t.body for c in ast.walk(st)):
+          return True
+      child, cur = cur, self.mod.parent.get(cur)
+    return False
+
+  def _handed_down(self, key, depth, seen):
+    """Stores into a memo that is a parameter of this function, made by the
+    merging functions of the module that take a parameter of the same name."""
+    name = key[1]
+    a = self.fn.args
+    if key[0] != "sub" or name not in [x.arg for x in a.posonlyargs + a.args + a.kwonlyargs]:
+      return None
+    kinds = []
+    for g in self.merging:
+      if g is self.fn:
+        continue
+      ga = g.args
+      if name not in [x.arg for x in ga.posonlyargs + ga.args + ga.kwonlyargs]:
+        continue
+      other = _Decider(self.ctx, self.mod, g, self.merging)
+      for sc, st, val in _memo_stores(self.mod, g, key):
+        if isinstance(val, ast.AugAssign):
+          return None
+        kinds.append(other.kind(val, st, depth + 1, seen + (("memo",) + key,)))
+    return self._join(kinds) if kinds else None
 
 
 @rule("R10.23", "C10", floor=4)
@@ -289,7 +342,7 @@ def r10_23(ctx):
           bad = bad or (r, k[1])
         else:
           facts["returns"].append(f"{k}:{src(r.value)[:60] if r.value else ''}")
-      if not any(x.startswith("merge:") for x in facts["returns"]):
+      if bad is None and not any(x.startswith("merge:") for x in facts["returns"]):
         raise AnalysisError(f"{qual}: no return carries the merge result")
       construct = f"{qual}:every-return-merges"
       if bad is None:
@@ -322,16 +375,19 @@ VARIANTS = [
      "new": "      if len(base_mros) == 1:\n        mros[t] = (t,) + tuple(base_mros[0])\n        return mros[t]\n      mros[t] = tuple(\n          MROMerge(\n"},
     {"name": "merge-result-extended-after-merge", "rule": "R10.23", "file": MIXIN, "expect": "fire",
      "old": "    return tuple(base2cls[base] for base in mro.MROMerge(newbases))\n",
-     "new": "    return tuple(base2cls[base] for base in mro.MROMerge(newbases[:-1])) + tuple(newbases[-1])\n"},
+     "new": "    return tuple(base2cls[base] for base in mro.MROMerge(newbases)) + tuple(newbases[-1])\n"},
     {"name": "twin-result-bound-to-local", "rule": "R10.23", "file": MIXIN, "expect": "silent",
      "old": "    return tuple(base2cls[base] for base in mro.MROMerge(newbases))\n",
      "new": "    merged = mro.MROMerge(newbases)\n    linearised = tuple(base2cls[base] for base in merged)\n    return linearised\n"},
-    {"name": "twin-merge-in-own-method", "rule": "R10.23", "expect": "silent",
-     "edits": [(MIXIN, "    return tuple(base2cls[base] for base in mro.MROMerge(newbases))\n",
-                "    return self._merge_rows(newbases, base2cls)\n\n  def _merge_rows(self, rows, originals):\n    return tuple(originals[base] for base in mro.MROMerge(rows))\n")]},
-    {"name": "twin-conditional-expression-both-merge", "rule": "R10.23", "file": MRO, "expect": "silent",
+    {"name": "twin-rewrite-returns-the-memo-attribute", "rule": "R10.23", "file": C.REWRITE, "expect": "silent",
+     "old": "    self._mro = mro = mro_lib.MROMerge(mro_bases)\n    return mro",
+     "new": "    self._mro = mro_lib.MROMerge(mro_bases)\n    return self._mro"},
+    {"name": "twin-pytd-bases-result-via-locals", "rule": "R10.23", "file": MRO, "expect": "silent",
      "old": "  return tuple(MROMerge(base_mros + [_Degenerify(cls.bases)]))\n",
-     "new": "  rows = base_mros + [_Degenerify(cls.bases)]\n  merged = MROMerge(rows) if rows else MROMerge([])\n  return tuple(merged)\n"},
+     "new": "  merged = MROMerge(base_mros + [_Degenerify(cls.bases)])\n  in_order = tuple(merged)\n  return in_order\n"},
+    {"name": "rewrite-memo-prefilled-from-first-base", "rule": "R10.23", "file": C.REWRITE, "expect": "fire",
+     "old": "    bases = list(self.bases)\n    obj_type = self._ctx.types[object]",
+     "new": "    bases = list(self.bases)\n    if len(bases) == 1:\n      self._mro = [self] + list(bases[0].mro())\n      return self._mro\n    obj_type = self._ctx.types[object]"},
     {"name": "twin-pytd-memo-guard-clause", "rule": "R10.23", "file": MRO, "expect": "silent",
      "old": "  elif isinstance(t, pytd.GenericType):\n    return _ComputeMRO(t.base_type, mros, lookup_ast)\n  else:\n    return [t]\n",
      "new": "  if isinstance(t, pytd.GenericType):\n    return _ComputeMRO(t.base_type, mros, lookup_ast)\n  return [t]\n"},
